@@ -42,10 +42,9 @@ func faultPlans(tier string, maxIdx int) []FaultSpec {
 	for _, t := range []string{"L1", "L2"} {
 		for idx := 0; idx <= maxIdx; idx++ {
 			out = append(out, FaultSpec{Tier: t, Index: idx, Kind: "cut-before"}, FaultSpec{Tier: t, Index: idx, Kind: "cut-after"})
-			codes := []uint16{0x0082, 0x0001}
-			if tier == "thorough" {
-				codes = []uint16{0x0001, 0x0002, 0x0003, 0x0004, 0x0005, 0x0081, 0x0082, 0x0084, 0x0085, 0x0086}
-			}
+			// every memcached error status (the quick tier samples the grid; see the always-run rules of the checks)
+			codes := []uint16{0x0001, 0x0002, 0x0003, 0x0004, 0x0005, 0x0081, 0x0082, 0x0084, 0x0085, 0x0086}
+			_ = tier
 			for _, c := range codes {
 				out = append(out, FaultSpec{Tier: t, Index: idx, Kind: "status", Status: c})
 			}
@@ -166,7 +165,7 @@ func init() {
 		defer d.Close()
 		r := rand.New(rand.NewSource(seed*131 + 9))
 		distinct := map[string]bool{}
-		sample := 0.12
+		sample := 0.05
 		if tier == "thorough" {
 			sample = 1.0
 		}
